@@ -100,6 +100,24 @@ struct S
       IO<G>::put(rhs, t < t1 ? x1(t) : composition(x1(t1), x2(t - t1)));
     }
   }
+  // the appended operand is itself the result of crop (its first / last segment then carries a re-parameterisation (T0, Del) != (0, 1))
+  template<int N1, int N2>
+  static void concat_crop_check(const double * T1, const double * V1, const double * g1, const double * T2, const double * V2,
+                                const double * g2, double ta, double tb, double t, int global, int localize, double * lhs, double * rhs)
+  {
+    const Sp x1  = chain<N1>(T1, V1, IO<G>::get(g1));
+    const Sp x2  = chain<N2>(T2, V2, IO<G>::get(g2));
+    const Sp x2c = x2.crop(ta, tb, localize != 0);
+    Sp y         = x1;
+    if (global) { y.concat_global(x2c); } else { y += x2c; }
+    const double t1 = x1.t_max();
+    IO<G>::put(lhs, y(t));
+    if (global) {
+      IO<G>::put(rhs, t < t1 ? x1(t) : x2c(t - t1));
+    } else {
+      IO<G>::put(rhs, t < t1 ? x1(t) : composition(x1(t1), x2c(t - t1)));
+    }
+  }
   template<int NS>
   static void ends(const double * T, const double * V, const double * g0, double * start, double * end, double * tmax, double * at_tmax)
   {
